@@ -192,6 +192,7 @@ func c15AddBackend(c *Ctx) {
 		return
 	}
 	rule := "max-lifetime"
+	ruleNumberParsing(c, rule, 1, "(*Message).GetHeaderInt")
 	isExp := func(v ssa.Value) bool { return isParam(f, v, 3) }
 	isTimeout := func(v ssa.Value) bool {
 		b, ok := isLoadOf(v, "DialogBasedBackend.timeout")
